@@ -14,7 +14,7 @@
 EXTENDS Keyval, TraceLib
 
 SetOf(s) == {s[i] : i \in DOMAIN s}
-SameMap(logged, args) == Len(logged) = Len(args) /\ SetOf(logged) = SetOf(args)
+SameMap(logged, al) == Len(logged) = Len(al) /\ SetOf(logged) = SetOf(al)
 
 TReset == IsEvent("Reset") /\ live' = FALSE /\ desc' = <<>> /\ name' = <<>> /\ args' = <<>> /\ out' = Bad
 
@@ -52,10 +52,13 @@ TKvMulti ==
 \* distribution descriptions: the text is a procedure whose name is the
 \* family, with the class count as argument n for the discretised families
 \* and the nested descriptions as dist / dist1.. ; read back: same family,
-\* same class count, same class values and probabilities (compared as
-\* indices into the pool of the written distribution's values, -1000000 =
-\* not equal to any of them).
-Val(args, k) == args[CHOOSE i \in DOMAIN args : args[i][1] = k][2]
+\* same class count, same class values and probabilities.  Values are logged
+\* as round(x * 10^6): the description language writes class values with six
+\* decimals, so "the same" is decided on that grid, with DistTol units of
+\* slack (-2147483647 = outside the 32-bit range, never equal).
+DistTol == 2
+Close(a, b) == a # -2147483647 /\ b # -2147483647 /\ a - b <= DistTol /\ b - a <= DistTol
+Val(al, k) == al[CHOOSE i \in DOMAIN al : al[i][1] = k][2]
 NFamilies == {"Gamma", "Gaussian", "Beta", "Exponential", "TruncExponential", "Uniform"}
 TDistRT ==
   /\ IsEvent("DistRT")
@@ -65,8 +68,8 @@ TDistRT ==
        /\ \A i \in DOMAIN Ev.inner :
             Ev.inner[i][1] \in KeysOf(P.args) /\ ParseProc(Val(P.args, Ev.inner[i][1])).name = Ev.inner[i][2]
   /\ Ev.r = "ok" /\ Ev.fam2 = Ev.fam /\ Ev.n2 = Ev.n
-  /\ Len(Ev.cats) = Ev.n /\ Ev.cats2 = Ev.cats /\ Ev.probs2 = Ev.probs
-  /\ \A i \in DOMAIN Ev.cats2 : Ev.cats2[i] >= 0 /\ Ev.probs2[i] >= 0
+  /\ Len(Ev.cats) = Ev.n /\ Len(Ev.cats2) = Ev.n /\ Len(Ev.probs) = Ev.n /\ Len(Ev.probs2) = Ev.n
+  /\ \A i \in 1..Ev.n : Close(Ev.cats2[i], Ev.cats[i]) /\ Close(Ev.probs2[i], Ev.probs[i])
   /\ UNCHANGED vars
 
 TraceNext == TReset \/ TKvMake \/ TKvParse \/ TKvChange \/ TKvMulti \/ TDistRT
